@@ -65,7 +65,8 @@ theorem roundtrip_small_int (cfg : NumCfg) (threshold : Nat) (neg : Bool) (m : N
       (toDoubleT threshold s).ieeeEq (.fin neg m e) = true := by
   have hlen20 := scalarToDecimal_length_le _ (castInt64_range neg m e)
   have hstr : numberToString cfg (.fin neg m e) = .ok (scalarToDecimal (castInt64 neg m e)) := by
-    simp only [numberToString, hm, if_false, hint, if_true]
+    have hit : intTest cfg neg m e = true := by rw [intTest_iff]; exact hint
+    simp only [numberToString, hm, if_false, hit, if_true]
     rw [if_neg (by omega)]
   refine ⟨_, hstr, ?_, ?_⟩
   · unfold scalarToDecimal
